@@ -59,3 +59,15 @@ Proof.
     destruct dec; [apply monotone_dec_firmly_nonexpansive | apply monotone_inc_firmly_nonexpansive]; congruence.
   - unfold firm_pair. rewrite dist2_dotd_id; [lra|]. rewrite (concat_length_rect nr nc X HX), (concat_length_rect nr nc X' HX'). reflexivity.
 Qed.
+
+(* l2_reg (block soft thresholding): the norm value the branch asks for depends on the tensor, so the two calls select PL2 with their own
+   norms; with the exact norms (Coq's sqrt) the operator is firmly non-expansive on the flattening *)
+Theorem prun_l2_firmly_nonexpansive t nr nc X X' : 0 <= t -> (1 <= nr)%nat -> (1 <= nc)%nat -> rect nr nc X -> rect nr nc X' ->
+  firm_pair (concat (prun Rops (PL2 t (sqrt (sumsq Rops (concat X)))) X)) (concat (prun Rops (PL2 t (sqrt (sumsq Rops (concat X')))) X'))
+            (concat X) (concat X').
+Proof.
+  intros Ht Hn Hc HX HX'. cbn [prun].
+  rewrite (flatwise_flat nr nc _ X Hn Hc HX) by apply l2_prox_length. rewrite (flatwise_flat nr nc _ X' Hn Hc HX') by apply l2_prox_length.
+  apply (l2_firmly_nonexpansive t (concat X) (concat X') Ht).
+  rewrite (concat_length_rect nr nc X HX), (concat_length_rect nr nc X' HX'). reflexivity.
+Qed.
